@@ -45,7 +45,9 @@ def specFrames (s : Bytes) : List Bytes := groupReplies [] (splitLines [] s)
 /-- every complete line of the stream has at least three bytes before its LF -/
 def wfLines (s : Bytes) : Bool := (splitLines [] s).all (fun l => l.length ≥ 4)
 
-/-- the decimal value of a reply that starts with three ASCII digits -/
+/-- the decimal value of a reply that starts with three ASCII digits. For a multi-line reply this is
+    the code of its *first* line, which is what `smtpcode()` uses (`250-x` / `550 y` counts as 250): the
+    class rules below are about the replies and codes *as delimited by `smtpcode()`*. -/
 def decCode : Bytes → Option Nat
   | a :: b :: c :: _ =>
     if isDigit a && isDigit b && isDigit c then some ((a.toNat - 48) * 100 + (b.toNat - 48) * 10 + (c.toNat - 48))
@@ -79,22 +81,28 @@ structure AScript where
 inductive Verdict | K | Z | D | lost (crit : Bool)
   deriving DecidableEq, Repr
 
+/-- a verdict decided by a reply or by the message file, as opposed to a lost connection -/
+def Verdict.decided : Verdict → Bool
+  | .lost _ => false
+  | _ => true
+
 structure Exp where
   rl : List Byte            -- class letter of each recipient report, in argument order
   v : Verdict
 
-/-- every `quit()` first writes QUIT; if that write fails the report is "connection died" -/
-def viaQuit (wf : Option WPoint) (rl : List Byte) (v : Verdict) : Exp :=
-  if wf = some .quit then ⟨rl, .lost false⟩ else ⟨rl, v⟩
+/-! The rules are *strict* about the final QUIT: once a verdict is decided (a 5xx/4xx reply, every
+recipient refused, the reply to the final dot) nothing that happens afterwards changes it — in
+particular not a failing write of the QUIT command (`wfail = some .quit` plays no role in `expect`).
+The code as it stands does not meet this: see `Props.C09.C09_quit_corner`. -/
 
 def expData (s : AScript) (rl : List Byte) (bother : Bool) (cs : List Nat) : Exp :=
-  if bother = false then viaQuit s.wfail rl .D else
+  if bother = false then ⟨rl, .D⟩ else
   if s.wfail = some .data then ⟨rl, .lost false⟩ else
   match cs with
   | [] => ⟨rl, .lost false⟩
   | d :: cs =>
-    if d ≥ 500 then viaQuit s.wfail rl .D else
-    if d ≥ 400 then viaQuit s.wfail rl .Z else
+    if d ≥ 500 then ⟨rl, .D⟩ else
+    if d ≥ 400 then ⟨rl, .Z⟩ else
     if s.wfail = some .body then ⟨rl, .lost false⟩ else
     if s.msgErr then ⟨rl, .Z⟩ else
     if s.msgPartial then ⟨rl, .D⟩ else
@@ -102,9 +110,9 @@ def expData (s : AScript) (rl : List Byte) (bother : Bool) (cs : List Nat) : Exp
     match cs with
     | [] => ⟨rl, .lost true⟩
     | f :: _ =>
-      if f ≥ 500 then viaQuit s.wfail rl .D else
-      if f ≥ 400 then viaQuit s.wfail rl .Z else
-      viaQuit s.wfail rl .K
+      if f ≥ 500 then ⟨rl, .D⟩ else
+      if f ≥ 400 then ⟨rl, .Z⟩ else
+      ⟨rl, .K⟩
 
 /-- `k` recipients still to be offered, the next one has index `i` -/
 def expRcpt (s : AScript) : Nat → Nat → List Byte → Bool → List Nat → Exp
@@ -123,18 +131,18 @@ def expect (s : AScript) : Exp :=
   match s.codes with
   | [] => ⟨[], .lost false⟩
   | g :: cs =>
-    if g ≠ 220 then viaQuit s.wfail [] .Z else
+    if g ≠ 220 then ⟨[], .Z⟩ else
     if s.wfail = some .helo then ⟨[], .lost false⟩ else
     match cs with
     | [] => ⟨[], .lost false⟩
     | h :: cs =>
-      if h ≠ 250 then viaQuit s.wfail [] .Z else
+      if h ≠ 250 then ⟨[], .Z⟩ else
       if s.wfail = some .mail then ⟨[], .lost false⟩ else
       match cs with
       | [] => ⟨[], .lost false⟩
       | m :: cs =>
-        if m ≥ 500 then viaQuit s.wfail [] .D else
-        if m ≥ 400 then viaQuit s.wfail [] .Z else
+        if m ≥ 500 then ⟨[], .D⟩ else
+        if m ≥ 400 then ⟨[], .Z⟩ else
         expRcpt s 0 s.n [] false cs
 
 /-! ### observations and the predicates of the theorems -/
@@ -167,15 +175,18 @@ def lt400 : Option Nat → Bool
 
 def clsLetter (c : Nat) : Byte := if c ≥ 500 then lH else if c ≥ 400 then lS else lR
 
-/-- no write of the conversation fails (`rcpt i` with `i ≥ n` names a write that does not exist) -/
+/-- no write up to and including the final flush of the message fails (`rcpt i` with `i ≥ n` names a
+    write that does not exist; the QUIT that follows the verdict is not part of it) -/
 def wfailUnreached (s : AScript) : Bool :=
   match s.wfail with
   | none => true
   | some (.rcpt i) => decide (s.n ≤ i)
+  | some .quit => true
   | some _ => false
 
 /-- **K is sound**: a `K` report implies greeting 220, HELO 250, MAIL/DATA/final-dot replies below
-    400, one report per recipient of which at least one is `r`, no failed write, message complete -/
+    400, one report per recipient of which at least one is `r`, no failed write up to the final flush,
+    message complete -/
 def kSound (s : AScript) (o : Obs) : Bool :=
   o.ml != cK ||
   (s.codes[0]? == some 220 && s.codes[1]? == some 250 && lt400 s.codes[2]? &&
@@ -218,25 +229,43 @@ def wireOrder (a : Args) (enc : Bytes) (wire : Bytes) (o : Obs) : Bool :=
   wireOrderW a enc wire o false ||
   (quitCmd.isSuffixOf wire && wireOrderW a enc (wire.take (wire.length - quitCmd.length)) o true)
 
-/-! ### the QUIT corner
+/-! ### when the QUIT write fails
 
-`quit()` writes QUIT through the same `safewrite` as everything else, so in the code as it stands a
-failing QUIT write replaces the verdict that was already decided by "connection died" (`viaQuit`).
-The property does not ask for that; the oracle therefore accepts, when the failing write is the QUIT,
-either what the code does now or the verdict that had been decided (`quitOK s` = the same script with
-the QUIT write succeeding). The strict predicates stay the statements proved about the model. -/
-
-def quitOK (s : AScript) : AScript :=
-  { s with wfail := if s.wfail = some .quit then none else s.wfail }
-
-def verdictOKq (s : AScript) (o : Obs) : Bool :=
-  verdictOK (expect s).v o || verdictOK (expect (quitOK s)).v o
-
-def kSoundQ (s : AScript) (o : Obs) : Bool := kSound s o || kSound (quitOK s) o
+The property is strict there (`expect` ignores `wfail = some .quit`): the decided verdict stands. For
+the commands the server sees this means that a `K` need not be followed by QUIT on the wire when —
+and only when — the QUIT write is the one that failed (`qf`). (`verdictOK` and `kSound` need no such
+clause. The former lenient predicates `verdictOKq`/`kSoundQ`, which accepted "connection died" in place
+of a decided verdict, are gone: that behaviour is finding C09-quit-write-failure.) -/
 
 /-- `qf` = the QUIT write failed: then `K` does not require QUIT on the wire -/
 def wireOrderQ (a : Args) (enc : Bytes) (wire : Bytes) (o : Obs) (qf : Bool) : Bool :=
   wireOrder a enc wire o || (qf && wireOrderW a enc wire o true)
+
+/-! ### which failing write is critical — decided from bytes, not from the client's flag
+
+`wire` = what the server had received when the write of `tried` failed; `enc` = the encoded message
+with its terminating dot line. The write is *critical* iff it carries the last byte of `enc`: only then
+can the server have the complete message although the client saw an error. -/
+
+def critWrite (a : Args) (enc wire tried : Bytes) : Bool :=
+  let full := (fullCmds a ++ enc).length
+  decide (wire.length < full) && decide (full ≤ wire.length + tried.length)
+
+/-- the failing write as the oracle labels it: inside `blast()` the label is recomputed from the bytes
+    (`crit`), whatever the client's `flagcritical` said -/
+def oracleWf (wf : Option WPoint) (crit : Bool) : Option WPoint :=
+  match wf with
+  | some .body => if crit then some .final else some .body
+  | some .final => if crit then some .final else some .body
+  | w => w
+
+/-- "does not end with a newline", without the encoder model where that is clear-cut: an empty message
+    or one ending in LF is complete, one ending in a byte other than LF/CR is partial; only for a final
+    CR (which ends the last line iff it is not itself the byte after a bare CR) `viaEncoder` decides -/
+def partialMsg (msg : Bytes) (viaEncoder : Bool) : Bool :=
+  match msg.getLast? with
+  | none => false
+  | some c => if c = LF then false else if c = CR then viaEncoder else true
 
 /-! ### before the connection: lookup trouble, connect trouble, choice of the address -/
 
@@ -257,12 +286,26 @@ def preOK (dnsret : Int) (cs : List Cand) (o : Obs) : Bool :=
   else if !(cs.any (fun c => eligible cs c && connects c)) then o.ml == cZ && o.rl.isEmpty
   else true
 
+def isAddrByte (c : Byte) : Bool := isDigit c || c == DOT
+
+/-- `pat` occurs in `t` as a whole dotted-decimal address: not preceded by a digit or dot, not followed
+    by a digit, nor by a dot and a digit (`10.0.0.1` does not occur in `110.0.0.1` or `10.0.0.15`).
+    `prev` = the byte before `t` -/
+def hasAddr (pat : Bytes) : Option Byte → Bytes → Bool
+  | _, [] => false
+  | prev, c :: t =>
+    (pat.isPrefixOf (c :: t) && !(prev.any isAddrByte) &&
+      (match (c :: t).drop pat.length with
+       | [] => true
+       | x :: rest => !isDigit x && !(x == DOT && (rest.head?.any isDigit)))) ||
+    hasAddr pat (some c) t
+
 /-- when an address connects it is the first eligible one that does, and every report of `smtp()` names
-    it (`outhost()`): the output contains its `ip_fmt` (oracle only; tied by correspondence) -/
+    it (`outhost()`): the output contains its `ip_fmt` as a whole address (oracle only; tied by correspondence) -/
 def hostNamed (cs : List Cand) (out : Bytes) : Bool :=
   match cs.find? (fun c => eligible cs c && connects c) with
   | none => true
-  | some c => hasInfix c.host out
+  | some c => hasAddr c.host none out
 
 /-! ### the spawner's report -/
 
